@@ -53,6 +53,7 @@ M = [
  ("m41-range-end-not-clamped", ["C08"], "store/fs/bounds.rs", "Bound::Excluded(end.min(ns_end))", "Bound::Excluded(end)"),
  ("m42-range-start-not-clamped", ["C08"], "store/fs/bounds.rs", "Some(start) if start > ns_start => start,", "Some(start) => start,"),
  ("m43-state-entry-first-document", ["C11"], "engine/state.rs", "        self.0\n            .get_mut(namespace)\n            .map(|n| n.nodes.entry(node).or_default())", "        if !self.0.contains_key(namespace) {\n            return None;\n        }\n        self.0\n            .values_mut()\n            .next()\n            .map(|n| n.nodes.entry(node).or_default())"),
+ ("m46-leave-keeps-sync-state", ["C11"], "engine/live.rs", "        if self.state.remove(&namespace) {", "        if self.state.is_syncing(&namespace) {"),
  ("m45-policy-of-last-document", ["C12","C15"], "store/fs.rs", "        let value = tables.download_policy.get(namespace.as_bytes())?;\n        Ok(match value {", "        let _ = namespace;\n        let value = tables.download_policy.last()?.map(|(_, v)| v);\n        Ok(match value {"),
  ("m44-is-connecting-any-peer", ["C11"], "engine/state.rs", "            .and_then(|state| state.nodes.get(node))\n            .map(|peer| {", "            .and_then(|state| state.nodes.values().next().filter(|_| state.nodes.contains_key(node)))\n            .map(|peer| {"),
 ]
